@@ -14,13 +14,13 @@ from ..oracle import spectrum as O
 LEVEL = "exploration"
 NEEDS = ["harness", "cli"]
 RULE = ("L: shapes with 1-5 axes, lengths 1-6 (quick: all <=3-axis shapes with lengths<=4 plus a seeded sample of larger ones; "
-        "thorough: many more), integer data < 2^40 (exact) and fractional / wide-magnitude data (per-cell summation error bound), EVERY ordered subset of axes incl. the full set, plus duplicate and "
-        "out-of-range requests; chains of one-at-a-time removals for a sample. C: view -m/-M on text/npy input, and "
+        "thorough: many more), integer data < 2^40 (exact) and fractional / wide-magnitude data (per-cell summation error bound), EVERY ordered subset of axes incl. the full set, spectra with 2^16 and more entries (every single axis), plus duplicate and "
+        "out-of-range requests; chains of one-at-a-time removals for a sample. C: view -m/-M on text/npy input (and -M lists that name an axis twice, in several options, or together with axes the spectrum does not have: refused or the same set), and "
         "create|view -m vs create on complete data. Non-trivial: >=2 axes, >=1 axis removed, removed axes not all of "
         "length 1, and data not constant; distinct = digest(shape, data, axes order).")
 ASSUMPTIONS = ["integer-valued data below 2^40: every f64 sum is exact whatever the summation order",
                "oracle: nested-loop sum, cross-checked against numpy.sum on every shard's first 50 cases"]
-FLOORS = {"quick": {"evaluations": 3000, "distinct_nontrivial": 1500, "counts": {"L_orders": 2500, "C_runs": 100}},
+FLOORS = {"quick": {"evaluations": 3000, "distinct_nontrivial": 1500, "counts": {"L_orders": 2500, "C_runs": 100, "L_big_spectra": 8}},
           "thorough": {"evaluations": 200000, "distinct_nontrivial": 100000, "counts": {"L_orders": 200000, "C_runs": 3000}}}
 NSHARD = 32
 SIZES = {"quick": (260, 8, 6), "thorough": (3000, 150, 60)}   # per shard: L shapes, C view cases, C create cases
@@ -75,13 +75,22 @@ def check_L(S, p, tier):
                 cases.append({"shape": shape, "data": data, "axes": axes, "kind": "valid" if len(axes) < d else "toomany", "exact": kind in ("int", "bigint", "sparse")})
             for axes in bad:
                 cases.append({"shape": shape, "data": data, "axes": axes, "kind": "bad"})
+    if "replay" not in p and p["i"] % 4 == 0:
+        # spectra with 2^16 and more entries (dozens of samples in 3-4 populations, or one very large one): every single axis removed
+        rngb = rng_for(seed, "c04", p["name"], "big")
+        for shape in rngb.sample([[300, 300], [41, 41, 41], [70000, 2], [2, 40000], [17, 17, 17, 17], [65536, 1], [256, 257], [3, 21846], [65537, 1], [1, 131075]], 2):
+            n_ = O.prod(shape)
+            data = [float((k_ * 7919) % 1000) for k_ in range(n_)]
+            for a_ in range(len(shape)):
+                cases.append({"shape": shape, "data": data, "axes": [a_], "kind": "valid", "exact": True, "big": True})
+            S.count("L_big_spectra")
     reqs = [{"op": "spec", "do": "marginalize", "shape": c["shape"], "data": GS.hexes(c["data"]), "axes": c["axes"]} for c in cases]
     results = harness.run_all(reqs)
     chains = []
     for ci, (c, r) in enumerate(zip(cases, results)):
         shape, data, axes = c["shape"], c["data"], c["axes"]
         d = len(shape)
-        wit = {"case": c, "level": "L"}
+        wit = {"case": c if not c.get("big") else dict(c, data="(k * 7919) % 1000 for k in range(prod(shape))"), "level": "L"}
         tag = "shape %r axes %r" % (shape, axes)
         S.count("L_orders")
         if "panic" in r or r.get("died"):
@@ -188,6 +197,23 @@ def check_C_view(S, p):
             S.viol("C04:cli-value", "[C view -m %r on %r] rc %s stdout %r expected %r" % (remove, shape, r1.rc, r1.out[:200], exp[:200]), dict(wit, replay=R.exact(r1, exp)))
         if r2.rc != r1.rc or r2.out != r1.out:
             S.viol("C04:keep-vs-remove", "[C shape %r] -M %r differs from -m %r: %r vs %r" % (shape, keep, remove, r2.out[:200], r1.out[:200]), dict(wit, replay=R.same(r1, r2)))
+        # the keep list written redundantly: an axis named twice, named in several -M options, or accompanied by axes the spectrum
+        # does not have. Such a request is either refused or means the same set of axes
+        keep3 = list(keep) + [rng.choice(keep) for _ in range(rng.randint(1, 2))]
+        if rng.random() < 0.4:
+            keep3 += [d + rng.randint(0, 5) for _ in range(rng.randint(1, 2))]
+        rng.shuffle(keep3)
+        if rng.random() < 0.5:
+            args3 = ["-M", ",".join(map(str, keep3))]
+        else:
+            args3 = [x for a_ in keep3 for x in ("-M", str(a_))]
+        r3 = run(args3)
+        S.count("C_runs")
+        S.count("C_redundant_keep_lists")
+        refused = r3.rc != 0 and not r3.out and r3.err.strip() and not r3.panicked
+        if not refused and (r3.rc != r1.rc or r3.out != r1.out):
+            S.viol("C04:keep-redundant", "[C shape %r] view %s is neither refused nor equal to -m %r: rc %s stdout %r, expected %r" % (
+                shape, " ".join(args3), remove, r3.rc, r3.out[:200], r1.out[:200]), dict(wit, redundant=args3, replay=R.same(r1, r3)))
         S.case(key=digest([shape, data, remove, "C"]), nontrivial=any(shape[a] > 1 for a in remove) and len(set(data)) > 1)
         if i == 0 and p.get("i") == 1:
             S.sample({"level": "C", "argv": r1.argv, "stdout": r1.out.decode()[:200], "keep_form_argv": r2.argv})
